@@ -410,15 +410,16 @@ func c05GenTimed(r *hx.RNG, engine string, production bool) c05TimedCase {
 		}
 	}
 	if !production {
-		// boundary configurations: one probed TTL only, the last TTL an 8-bit counter holds, no send delay
+		// boundary configurations: one probed TTL only, the last TTL an 8-bit counter holds.  (No
+		// zero send delay here: with it every send and the receiver's first call fall on the same
+		// instant, and the timed model — deterministic on ties by construction — says nothing about
+		// which of two simultaneous events the scheduler runs first.)
 		switch r.Intn(30) {
 		case 0, 1:
 			c.Max = c.Min
 		case 2, 3:
 			c.Max = 255
 			c.Min = r.Range(246, 255)
-		case 4:
-			c.Delay = 0
 		}
 	}
 	c.Timeout += 250 * time.Nanosecond
